@@ -147,7 +147,7 @@ func replayPQ(r *core.Run, cfg string, judgeEvery int) []*core.Trace {
 	}
 	gen.Cleanup()
 	max := maximalPaths(paths)
-	r.Extra["pqreplay_"+cfg] = map[string]interface{}{"graph_states": gen.Distinct, "transitions": len(paths), "maximal_paths_replayed": len(max), "judged_by_PQTrace_every": judgeEvery}
+	r.SetExtra("pqreplay_"+cfg, map[string]interface{}{"graph_states": gen.Distinct, "transitions": len(paths), "maximal_paths_replayed": len(max), "judged_by_PQTrace_every": judgeEvery})
 	if len(max) > 0 {
 		r.AddSample(map[string]interface{}{"replayed_pq_path": max[len(max)/2]})
 	}
